@@ -195,3 +195,24 @@ check("C12", "exploration",
            "documented truncated discrete Laplace law; every support value is pushed through the sample-to-share mapping at every "
            "output width; truncation points and constructor ranges are checked against independent evaluations.",
       note="Coin-tree residual mass < 1e-10; epsilon/delta outside the listed grid are not explored.")
+
+check("C05", "fault_enumeration",
+      "honest: sharded shuffle (semi-honest and malicious contexts) for every row count 0..6 (12) x shard counts 1,2,3,5 x "
+      "{round-robin, all rows on each single shard, 3 seeded assignments}; oracle: reconstructed multiset equals the input and "
+      "all share copies are consistent. tamper (malicious, 1 and 2 shards, 3 rows): channel census of every helper-to-helper "
+      "channel (run twice, must agree), then one run per (channel, chunk, fault) with faults = bit flips at bytes {0,1,mid,last} "
+      "x masks {0x01,0x80} (every byte x 8 masks in thorough), zeroed chunk, and replaced 8-byte counts; every one of the three "
+      "helpers is the corrupt sender in turn. distinct_nontrivial = faults whose interceptor fired and changed >= 1 byte "
+      "+ honest cases with >= 2 rows.",
+      [{"name": "shuffle", "config": "A", "test": "verif::c05::run", "timeout": {"quick": 900, "thorough": 7200},
+        "require": {"any": {"tamper_rejected": 50, "honest_runs": 100, "channels_in_census": 20}}}],
+      assumptions=["one fault per run (no adaptive multi-message strategies)",
+                   "the 2^-32 probability that a forged row passes the Gf32Bit MAC is not explored (seeds fixed)",
+                   "a helper altering a row it holds is covered only through what that makes it send"],
+      exhaustive=True, engine="E3 fault + E5 domain",
+      technique="channel census + exhaustive single-fault enumeration on real three-helper (x shards) executions through the "
+                "repository's StreamInterceptor; exhaustive small-scope enumeration of honest inputs and shard assignments",
+      text="Every message chunk of every helper-to-helper channel of the malicious shuffle is corrupted in turn (bit flips, zeroing, "
+           "count replacement) and the outcome of all helper futures is observed: an honest helper must fail or never produce output, "
+           "or the honest helpers' rows must still be the input multiset. Honest runs over all small shapes must preserve the multiset.",
+      note="Bounds: <= 6 (12) rows, <= 5 shards; tamper runs on 3 rows with 1-2 shards.")
